@@ -10,9 +10,14 @@ From Chess Require Import Proofs.BitsFacts Proofs.WalkDep Proofs.TablesLib Proof
 Open Scope N_scope.
 
 (** ** the occupancy word of a position *)
-Definition occw (p:pos) : N := bb_of (occ p).
+(** sealed behind an opaque proof so that no conversion ever unfolds it on a symbolic position *)
+Definition occw_sig (p:pos) : {w : N | w = bb_of (occ p)}.
+Proof. exists (bb_of (occ p)). reflexivity. Qed.
+Definition occw (p:pos) : N := proj1_sig (occw_sig p).
+Lemma occw_eq p : occw p = bb_of (occ p).
+Proof. exact (proj2_sig (occw_sig p)). Qed.
 Lemma occw_spec p x : x < 64 -> occ p x = N.testbit (occw p) x.
-Proof. intro Hx. unfold occw. symmetry. apply bb_of_testbit_lt, Hx. Qed.
+Proof. intro Hx. rewrite occw_eq. symmetry. apply bb_of_testbit_lt, Hx. Qed.
 
 (** the man [x] standing on [a] would attack [t] on an empty board *)
 Definition reach (x:option (ptype*color)) (a t:N) : bool :=
@@ -288,8 +293,8 @@ Example attacks_reach_ex :
   attacks startpos 1 18 = true /\ reach (at_ startpos 1) 1 18 = true /\
   attacks startpos 0 16 = false /\ reach (at_ startpos 0) 0 16 = true /\
   N.land (between 0 16) (occw startpos) = bit 8.
-Proof. vm_compute. auto. Qed.
+Proof. rewrite occw_eq. vm_compute. auto. Qed.
 Example pinned_iff_ex :
   king_sq pinpos (turn pinpos) = Some 4 /\ pinned_of pinpos = [12] /\
   N.land (between 60 4) (occw pinpos) = bit 12.
-Proof. vm_compute. auto. Qed.
+Proof. rewrite occw_eq. vm_compute. auto. Qed.
